@@ -687,8 +687,14 @@ def scenario_one_shot(r):
     if not keep2:
         main += ["cdel 2"]
     main += ["sdel 0", "crel 1", "probe"]
-    how = r.choice(["self", "self", "outside", "clear", "gdel", "tdel"])
+    how = r.choice(["self", "self", "outside", "clear", "gdel", "tdel", "kasg", "kasg"])
     script5 = []
+    if how == "kasg" and keep2:
+        # a scoped_connection holding the slot is assigned the connection object that the slot's own functor owns:
+        # the assignment disconnects the slot (destroying that functor, and with it the connection object) before
+        # it takes the new value, so the value has to have been copied first
+        main += ["knew 7 2", "kasg%s 7 1" % r.choice(["", "m"]), "kq 7", "probe", "kdel 7"]
+        how = "done"
     if how == "self":
         script5 = ["cdisc 1"] + (["cq 1"] if r.random() < 0.5 else [])
         main += ["gemit 0 %d 1" % r.randint(0, 9), "gq 0", "gemit 0 %d 1" % r.randint(0, 9)]
@@ -698,10 +704,11 @@ def scenario_one_shot(r):
         main += ["gclear 0"]
     elif how == "tdel" and tracked:
         main += ["tdel 0"]
-    else:
+    elif how != "done":
         main += ["gdel 0"]
+        how = "gdel"
     main += ["probe"] + (["cq 2", "cdel 2"] if keep2 else [])
-    if how != "gdel" and not (how == "tdel" and not tracked) and not (how == "outside" and not keep2):
+    if how != "gdel":
         main += ["gq 0", "gdel 0"]
     main += ["cdel %d" % (10 + k) for k in range(nby)]
     if use_t:
